@@ -203,22 +203,55 @@ def oracle_c03(rr: Any, spec: Dict[str, Any]) -> "tuple[List[Violation], Dict[st
 
 
 def oracle_c04(rr: Any, spec: Dict[str, Any]) -> "tuple[List[Violation], int]":
+    """A message is unfinished from the broker's yield until its processing is over: Receiver.callback
+    returned, the task function body (if it started) has ended, and every acknowledgement that was started
+    has completed."""
     cfg = spec["cfg"]
     bound = cfg["A"] + cfg.get("P", 0) + 1
-    outstanding = 0
     mx = 0
     v: List[Violation] = []
-    exited: set = set()
+    st: Dict[Any, Dict[str, int]] = {}
+    unfinished: set = set()
+    info = {i["d"]: i for i in rr.sc.deliveries}
+
+    def done(s: Dict[str, int]) -> bool:
+        if not (s["exit"] and s["body"] <= 0 and s["acks"] <= 0):
+            return False
+        # an ackable, well-formed message is only finished once its acknowledgement has completed
+        # (unless its processing aborted with an exception, then it is never acknowledged)
+        if s.get("needs_ack") and not s.get("acked") and not s.get("raised"):
+            return False
+        return True
+
     for e in rr.trace:
-        if e["k"] == "yield":
-            outstanding += 1
-            if outstanding > mx:
-                mx = outstanding
+        d, k = e["m"], e["k"]
+        if d is None:
+            continue
+        s = st.setdefault(d, {"exit": 0, "body": 0, "acks": 0})
+        if k == "yield":
+            i = info.get(d, {})
+            s["needs_ack"] = 1 if (i.get("ackable") and i.get("kind") == "valid") else 0
+            unfinished.add(d)
+            if len(unfinished) > mx:
+                mx = len(unfinished)
                 if mx > bound:
                     v.append(Violation("prefetch-bound-exceeded", f"{mx} unfinished messages > A+P+1={bound} (A={cfg['A']}, P={cfg.get('P', 0)}) at t={e['t']}"))
-        elif e["k"] == "cb_exit" and e["m"] is not None and e["m"] not in exited:
-            exited.add(e["m"])
-            outstanding -= 1
+            continue
+        if k == "cb_exit":
+            s["exit"] = 1
+        elif k == "task_start":
+            s["body"] += 1
+        elif k == "task_end":
+            s["body"] -= 1
+        elif k == "ack":
+            s["acks"] += 1
+        elif k == "ack_done":
+            s["acks"] -= 1
+            s["acked"] = 1
+        elif k == "cb_raise":
+            s["raised"] = 1
+        if d in unfinished and done(s):
+            unfinished.discard(d)
     return v, mx
 
 
